@@ -130,7 +130,7 @@ def run_config(cfg):
     if so[0] == 'unsupported':
         res.status = 'inconclusive'; res.notes.append('symbolic engine: ' + so[1]); return res
     if so[0] != ro[0] or (so[0] == 'raise' and so[1] != ro[1]):
-        res.status = 'error'; res.trace = 'symbolic outcome %r differs from real torch outcome %r' % (so[:3], ro[:3]); return res
+        res.status = 'error'; res.trace = 'symbolic outcome %r differs from real torch outcome %r' % (core.brief(so), core.brief(ro)); return res
     if so[0] == 'raise':
         res.status = 'violation'
         res.violations.append(dict(what='layer raises %s: %s' % (so[1], so[2][:100]), facts=facts, replay=dict(kind='raise'), reproduced=True)); return res
